@@ -49,6 +49,10 @@ CHECKS = {
          "Exploration: generated sequences of load-all / load-for-resource / append / clear / get over pools of valid, invalid and equal-but-differently-identified rules for all five managers; after every operation the reported rules, the rules bound to the enforcing controllers/breakers and (flow, isolation) real admission decisions are compared with a reference map; return values asserted only where the statement fixes them.",
          "Trusted: rules given to load_rules_of_resource name that resource; sets compared under rule equality; panics end the shard (dirty).",
          "5/C10"),
+ "C12": ("proptest over the cross product of enum-valued and boundary numeric rule fields x loading entry points x entry shapes; catch_unwind + manager health probe; formatting log sink; child-process shrinking",
+         "Exploration: every enum variant of every family (incl. Associated with seen / unseen ref_resource, MemoryAdaptive, Custom without generator) combined with boundary and invalid numbers, loaded through every entry point, exercised with entries of every argument shape, reloaded and cleared; a panic anywhere or a manager that no longer answers afterwards is a violation. The build has overflow checks on.",
+         "Trusted: virtual clock/sleep; a log sink formatting every record (as any enabled logger would); hangs are reported by the watchdog as inconclusive.",
+         "5/C12"),
 }
 ALL = ["C%02d" % i for i in range(1, 21)]
 NOT_YET = "check not built yet in this round (planned, see DESIGN.md section 5)"
